@@ -578,7 +578,7 @@ func goStmts(p *pkg, fd *ast.FuncDecl) []string {
 // ---- lock nesting --------------------------------------------------------------
 
 type lockInfo struct {
-	acquires []string   // locks taken directly (normalised names)
+	acquires []string    // locks taken directly (normalised names)
 	edges    [][2]string // (held, acquired) pairs inside the function
 	calls    []struct {
 		held []string
